@@ -1,4 +1,569 @@
-//! E2: controlled scheduler (preemption-bounded DFS over real thread interleavings).
-use kira::verif::Event;
+//! E2: stateless exploration of real thread interleavings.
+//!
+//! Threads are real OS threads running real kira code. They can only switch at *sync points*:
+//! the `kira::verif::sync_point` hooks in kira and the `vhook::point` hooks in the instrumented
+//! copies of triple_buffer / rtrb / atomic-arena (one before every cross-thread atomic
+//! operation). Exactly one controlled thread runs at a time; at every sync point of the running
+//! thread the scheduler decides who runs next. Exploration is iterative context bounding:
+//! depth-first over choice vectors, an alternative is taken only while the number of
+//! preemptions stays within the bound. Everything is re-executed from scratch per schedule.
 
-pub fn sched_hook(_ev: Event) {}
+use kira::verif::Event;
+use std::cell::Cell;
+use std::sync::{Arc, Condvar, Mutex};
+use std::time::{Duration, Instant};
+
+#[derive(Debug, Clone, Copy, PartialEq, Eq)]
+enum TStatus {
+	/// parked at a sync point (or at its start), can be chosen
+	Parked,
+	Running,
+	Finished,
+}
+
+#[derive(Debug, Clone)]
+struct TInfo {
+	name: String,
+	status: TStatus,
+	yielded: bool,
+	site: &'static str,
+	/// a thread kira spawned itself
+	adopted: bool,
+}
+
+#[derive(Debug, Clone, Copy, PartialEq, Eq)]
+pub struct Point {
+	pub n_enabled: u8,
+	pub chosen: u8,
+	/// was the previously running thread still enabled (so that choosing another one is a preemption)?
+	pub cur_enabled: bool,
+	pub thread: u8,
+}
+
+#[derive(Debug, Clone, Copy, PartialEq, Eq)]
+pub enum EndKind {
+	Completed,
+	/// the step horizon was reached; remaining threads were released to free-run
+	Horizon,
+	/// only yielding (spinning/waiting) threads remained for too many rounds
+	Livelock,
+}
+
+struct State {
+	active: bool,
+	threads: Vec<TInfo>,
+	current: Option<usize>,
+	prefix: Vec<u8>,
+	trace: Vec<Point>,
+	sites: Vec<(u8, &'static str)>,
+	filter: fn(&'static str) -> bool,
+	horizon: usize,
+	aborting: Option<EndKind>,
+	done: bool,
+	spawned: usize,
+	registered: usize,
+	spin_rounds: usize,
+	max_spin_rounds: usize,
+	divergence: Option<String>,
+	record_sites: bool,
+}
+
+static ST: Mutex<Option<State>> = Mutex::new(None);
+static CV: Condvar = Condvar::new();
+
+thread_local! {
+	static TID: Cell<Option<usize>> = const { Cell::new(None) };
+	static DETACHED: Cell<bool> = const { Cell::new(false) };
+}
+
+fn lock() -> std::sync::MutexGuard<'static, Option<State>> {
+	ST.lock().unwrap_or_else(|e| e.into_inner())
+}
+
+pub fn install_shim_hooks() {
+	fn shim(site: &'static str) {
+		if crate::pacer::mode() == crate::pacer::Mode::Sched {
+			sched_hook(Event::Sync(site));
+		}
+	}
+	triple_buffer::vhook::set_hook(Some(shim));
+	rtrb::vhook::set_hook(Some(shim));
+	atomic_arena::vhook::set_hook(Some(shim));
+}
+
+/// decide who runs next. Must be called with the lock held by the thread `me` that just parked/finished/yielded.
+fn decide(st: &mut State, me: Option<usize>) {
+	if st.aborting.is_some() {
+		return;
+	}
+	// enabled threads in canonical order: the running thread first if it is still enabled, then ascending ids
+	let mut others: Vec<usize> = vec![];
+	let mut cur_enabled = false;
+	for (i, t) in st.threads.iter().enumerate() {
+		if t.status == TStatus::Parked && !t.yielded {
+			if Some(i) == me {
+				cur_enabled = true;
+			} else {
+				others.push(i);
+			}
+		}
+	}
+	let mut enabled: Vec<usize> = vec![];
+	if cur_enabled {
+		enabled.push(me.unwrap());
+	}
+	enabled.extend(others);
+	if enabled.is_empty() {
+		// only yielded threads (or nothing) remain
+		let waiting: Vec<usize> = st
+			.threads
+			.iter()
+			.enumerate()
+			.filter(|(_, t)| t.status == TStatus::Parked)
+			.map(|(i, _)| i)
+			.collect();
+		if waiting.is_empty() {
+			if st.threads.iter().all(|t| t.status == TStatus::Finished) {
+				st.done = true;
+			}
+			st.current = None;
+			CV.notify_all();
+			return;
+		}
+		st.spin_rounds += 1;
+		if st.spin_rounds > st.max_spin_rounds {
+			st.aborting = Some(EndKind::Livelock);
+			st.current = None;
+			CV.notify_all();
+			return;
+		}
+		for t in st.threads.iter_mut() {
+			t.yielded = false;
+		}
+		enabled = waiting;
+		// canonical order again
+		if let Some(m) = me {
+			if let Some(p) = enabled.iter().position(|x| *x == m) {
+				enabled.remove(p);
+				enabled.insert(0, m);
+				cur_enabled = true;
+			}
+		}
+	}
+	let idx = st.trace.len();
+	if idx >= st.horizon {
+		st.aborting = Some(EndKind::Horizon);
+		st.current = None;
+		CV.notify_all();
+		return;
+	}
+	let choice = if idx < st.prefix.len() {
+		let c = st.prefix[idx] as usize;
+		if c >= enabled.len() {
+			st.divergence = Some(format!(
+				"replay divergence at point {}: prefix asks for choice {} but only {} thread(s) are enabled",
+				idx,
+				c,
+				enabled.len()
+			));
+			0
+		} else {
+			c
+		}
+	} else {
+		0
+	};
+	let chosen = enabled[choice];
+	st.trace.push(Point {
+		n_enabled: enabled.len().min(255) as u8,
+		chosen: choice as u8,
+		cur_enabled,
+		thread: chosen as u8,
+	});
+	if st.record_sites {
+		let site = st.threads[chosen].site;
+		st.sites.push((chosen as u8, site));
+	}
+	// any step by another thread re-enables yielded threads
+	for (i, t) in st.threads.iter_mut().enumerate() {
+		if i != chosen {
+			// a yielded thread stays disabled until someone else *takes a step*, i.e. now
+			if t.yielded && Some(i) != Some(chosen) {
+				t.yielded = false;
+			}
+		}
+	}
+	st.current = Some(chosen);
+	CV.notify_all();
+}
+
+/// park the calling controlled thread until it is chosen (or the execution is aborted)
+fn wait_turn(mut g: std::sync::MutexGuard<'static, Option<State>>, me: usize) {
+	loop {
+		{
+			let st = g.as_mut().unwrap();
+			if st.aborting.is_some() {
+				DETACHED.with(|d| d.set(true));
+				return;
+			}
+			if st.current == Some(me) {
+				st.threads[me].status = TStatus::Running;
+				return;
+			}
+		}
+		g = CV.wait(g).unwrap_or_else(|e| e.into_inner());
+		if g.is_none() {
+			DETACHED.with(|d| d.set(true));
+			return;
+		}
+	}
+}
+
+pub fn sched_hook(ev: Event) {
+	if DETACHED.with(|d| d.get()) {
+		return;
+	}
+	match ev {
+		Event::Sync(site) => {
+			let mut g = lock();
+			let Some(st) = g.as_mut() else { return };
+			if !st.active {
+				return;
+			}
+			let me = match TID.with(|t| t.get()) {
+				Some(me) => me,
+				None => {
+					// an unknown thread: adopt it if kira announced a spawn, otherwise it is not ours
+					if st.registered < st.spawned {
+						st.registered += 1;
+						st.threads.push(TInfo {
+							name: format!("kira-thread-{}", st.threads.len()),
+							status: TStatus::Parked,
+							yielded: false,
+							site,
+							adopted: true,
+						});
+						let me = st.threads.len() - 1;
+						TID.with(|t| t.set(Some(me)));
+						CV.notify_all();
+						wait_turn(g, me);
+						return;
+					}
+					return;
+				}
+			};
+			if st.aborting.is_some() {
+				DETACHED.with(|d| d.set(true));
+				return;
+			}
+			let is_yield = site.starts_with("yield:");
+			if !is_yield && !(st.filter)(site) {
+				return;
+			}
+			st.threads[me].status = TStatus::Parked;
+			st.threads[me].site = site;
+			if is_yield {
+				st.threads[me].yielded = true;
+			} else {
+				st.spin_rounds = 0;
+			}
+			decide(st, Some(me));
+			wait_turn(g, me);
+		}
+		Event::ThreadSpawned => {
+			let mut g = lock();
+			let Some(st) = g.as_mut() else { return };
+			if !st.active {
+				return;
+			}
+			st.spawned += 1;
+			let want = st.spawned;
+			let t0 = Instant::now();
+			loop {
+				let st = g.as_mut().unwrap();
+				if st.registered >= want || st.aborting.is_some() {
+					break;
+				}
+				let (ng, _) = CV.wait_timeout(g, Duration::from_millis(50)).unwrap_or_else(|e| e.into_inner());
+				g = ng;
+				if g.is_none() {
+					return;
+				}
+				if t0.elapsed() > Duration::from_secs(10) {
+					g.as_mut().unwrap().divergence = Some("a thread spawned by kira never reached its first sync point".into());
+					break;
+				}
+			}
+		}
+		Event::ThreadExit => {
+			let Some(me) = TID.with(|t| t.get()) else { return };
+			let mut g = lock();
+			let Some(st) = g.as_mut() else { return };
+			DETACHED.with(|d| d.set(true));
+			if st.aborting.is_some() {
+				return;
+			}
+			st.threads[me].status = TStatus::Finished;
+			st.spin_rounds = 0;
+			decide(st, None);
+		}
+	}
+}
+
+// ---------------------------------------------------------------------------------------------
+// running one execution
+
+pub struct Exec {
+	handles: Vec<std::thread::JoinHandle<()>>,
+}
+
+pub struct RunResult {
+	pub trace: Vec<Point>,
+	pub sites: Vec<(u8, &'static str)>,
+	pub end: EndKind,
+	pub divergence: Option<String>,
+	pub thread_names: Vec<String>,
+	/// adopted (kira-spawned) threads that had not finished when the execution ended
+	pub unfinished_adopted: usize,
+	pub panics: Vec<String>,
+}
+
+#[derive(Clone)]
+pub struct Config {
+	pub filter: fn(&'static str) -> bool,
+	pub horizon: usize,
+	pub max_spin_rounds: usize,
+	pub record_sites: bool,
+}
+
+impl Default for Config {
+	fn default() -> Self {
+		Self {
+			filter: |_| true,
+			horizon: 4000,
+			max_spin_rounds: 24,
+			record_sites: false,
+		}
+	}
+}
+
+static PANICS: Mutex<Vec<String>> = Mutex::new(Vec::new());
+
+impl Exec {
+	/// start an execution: installs the scheduler state; threads spawned through `spawn` are controlled
+	pub fn begin(cfg: &Config, prefix: &[u8]) -> Exec {
+		crate::pacer::set_mode(crate::pacer::Mode::Sched);
+		install_shim_hooks();
+		let mut g = lock();
+		*g = Some(State {
+			active: true,
+			threads: vec![],
+			current: None,
+			prefix: prefix.to_vec(),
+			trace: vec![],
+			sites: vec![],
+			filter: cfg.filter,
+			horizon: cfg.horizon,
+			aborting: None,
+			done: false,
+			spawned: 0,
+			registered: 0,
+			spin_rounds: 0,
+			max_spin_rounds: cfg.max_spin_rounds,
+			divergence: None,
+			record_sites: cfg.record_sites,
+		});
+		PANICS.lock().unwrap_or_else(|e| e.into_inner()).clear();
+		Exec { handles: vec![] }
+	}
+
+	/// spawn a controlled thread; it does not start running before `run()`
+	pub fn spawn(&mut self, name: &str, f: impl FnOnce() + Send + 'static) {
+		let me = {
+			let mut g = lock();
+			let st = g.as_mut().unwrap();
+			st.threads.push(TInfo {
+				name: name.to_string(),
+				status: TStatus::Parked,
+				yielded: false,
+				site: "start",
+				adopted: false,
+			});
+			st.threads.len() - 1
+		};
+		let h = std::thread::Builder::new()
+			.name(name.to_string())
+			.spawn(move || {
+				TID.with(|t| t.set(Some(me)));
+				DETACHED.with(|d| d.set(false));
+				wait_turn(lock(), me);
+				let r = crate::rig::catch(f);
+				if let Err(p) = r {
+					PANICS.lock().unwrap_or_else(|e| e.into_inner()).push(format!("thread {}: {}", me, p));
+				}
+				let mut g = lock();
+				if let Some(st) = g.as_mut() {
+					st.threads[me].status = TStatus::Finished;
+					st.spin_rounds = 0;
+					if !DETACHED.with(|d| d.get()) {
+						decide(st, None);
+					} else if st.threads.iter().all(|t| t.status == TStatus::Finished || t.adopted) {
+						st.done = true;
+						CV.notify_all();
+					}
+				}
+				DETACHED.with(|d| d.set(true));
+			})
+			.expect("spawn controlled thread");
+		self.handles.push(h);
+	}
+
+	/// run the controlled threads to completion under the scheduler
+	pub fn run(mut self) -> RunResult {
+		{
+			let mut g = lock();
+			let st = g.as_mut().unwrap();
+			decide(st, None);
+		}
+		let t0 = Instant::now();
+		let mut g = lock();
+		loop {
+			let st = g.as_mut().unwrap();
+			if st.done || st.aborting.is_some() {
+				break;
+			}
+			let (ng, _) = CV.wait_timeout(g, Duration::from_millis(20)).unwrap_or_else(|e| e.into_inner());
+			g = ng;
+			if t0.elapsed() > Duration::from_secs(30) {
+				let st = g.as_mut().unwrap();
+				st.divergence = Some(format!(
+					"execution did not finish within 30 s (threads: {:?})",
+					st.threads.iter().map(|t| (t.name.clone(), t.status, t.site)).collect::<Vec<_>>()
+				));
+				st.aborting = Some(EndKind::Horizon);
+				CV.notify_all();
+				break;
+			}
+		}
+		let end = g.as_ref().unwrap().aborting.unwrap_or(EndKind::Completed);
+		CV.notify_all();
+		drop(g);
+		// harness threads are finite programs: once released they finish
+		for h in self.handles.drain(..) {
+			let _ = h.join();
+		}
+		let mut g = lock();
+		let st = g.take().unwrap();
+		CV.notify_all();
+		drop(g);
+		crate::pacer::set_mode(crate::pacer::Mode::Off);
+		RunResult {
+			trace: st.trace,
+			sites: st.sites,
+			end,
+			divergence: st.divergence,
+			thread_names: st.threads.iter().map(|t| t.name.clone()).collect(),
+			unfinished_adopted: st.threads.iter().filter(|t| t.adopted && t.status != TStatus::Finished).count(),
+			panics: PANICS.lock().unwrap_or_else(|e| e.into_inner()).clone(),
+		}
+	}
+}
+
+// ---------------------------------------------------------------------------------------------
+// exploration
+
+pub struct ExploreStats {
+	pub schedules: u64,
+	pub max_points: usize,
+	pub max_preemptions_used: u32,
+	pub horizon_hits: u64,
+	pub livelocks: u64,
+	pub capped: bool,
+	pub error: Option<String>,
+}
+
+/// Explore all schedules of `body` with at most `bound` preemptions (None = unbounded).
+/// `body(prefix)` builds fresh objects, runs one execution with `Exec::begin(cfg, prefix)` and returns
+/// the run result plus the harness' observation; `judge` is called for every completed execution.
+pub fn explore<O>(
+	bound: Option<u32>,
+	max_schedules: u64,
+	body: &mut dyn FnMut(&[u8]) -> (RunResult, O),
+	judge: &mut dyn FnMut(&RunResult, &O, &[u8]),
+) -> ExploreStats {
+	let mut stats = ExploreStats {
+		schedules: 0,
+		max_points: 0,
+		max_preemptions_used: 0,
+		horizon_hits: 0,
+		livelocks: 0,
+		capped: false,
+		error: None,
+	};
+	let mut stack: Vec<Vec<u8>> = vec![vec![]];
+	while let Some(prefix) = stack.pop() {
+		if stats.schedules >= max_schedules {
+			stats.capped = true;
+			break;
+		}
+		let (res, obs) = body(&prefix);
+		stats.schedules += 1;
+		if let Some(d) = &res.divergence {
+			stats.error = Some(d.clone());
+			break;
+		}
+		// the prefix must have been followed
+		for (i, c) in prefix.iter().enumerate() {
+			if res.trace.get(i).map(|p| p.chosen) != Some(*c) {
+				stats.error = Some(format!("replay divergence: prefix {:?} not reproduced (trace {:?})", prefix, &res.trace[..res.trace.len().min(prefix.len() + 1)]));
+				return stats;
+			}
+		}
+		match res.end {
+			EndKind::Horizon => stats.horizon_hits += 1,
+			EndKind::Livelock => stats.livelocks += 1,
+			EndKind::Completed => {}
+		}
+		stats.max_points = stats.max_points.max(res.trace.len());
+		let choices: Vec<u8> = res.trace.iter().map(|p| p.chosen).collect();
+		judge(&res, &obs, &choices);
+		// children
+		let mut pre = 0u32;
+		let mut pre_at: Vec<u32> = Vec::with_capacity(res.trace.len());
+		for p in &res.trace {
+			pre_at.push(pre);
+			if p.chosen != 0 && p.cur_enabled {
+				pre += 1;
+			}
+		}
+		stats.max_preemptions_used = stats.max_preemptions_used.max(pre);
+		for i in (prefix.len()..res.trace.len()).rev() {
+			let p = res.trace[i];
+			for alt in 1..p.n_enabled {
+				let cost = pre_at[i] + if p.cur_enabled { 1 } else { 0 };
+				if bound.map(|b| cost <= b).unwrap_or(true) {
+					let mut np = choices[..i].to_vec();
+					np.push(alt);
+					stack.push(np);
+				}
+			}
+		}
+	}
+	stats
+}
+
+pub fn fmt_schedule(res: &RunResult) -> String {
+	let mut s = String::new();
+	for (i, p) in res.trace.iter().enumerate() {
+		if p.chosen != 0 || i == 0 {
+			let site = res.sites.get(i).map(|x| x.1).unwrap_or("");
+			s.push_str(&format!("[{}:{}→T{}@{}] ", i, p.chosen, p.thread, site));
+		}
+	}
+	s
+}
+
+#[allow(dead_code)]
+pub fn arc_mutex<T>(t: T) -> Arc<Mutex<T>> {
+	Arc::new(Mutex::new(t))
+}
